@@ -90,12 +90,14 @@ impl Core {
     /// Lets Votor consume one queued pool event.
     pub fn votor_step(&mut self) -> Option<PoolEvent> {
         let e = self.q.pop_front()?;
+        let _ = verif_take_armed_windows(); // per-thread: leftovers of a call that panicked in another world
         poll_once(self.votor.verif_handle_pool_event(e.clone()));
         self.collect_armed();
         Some(e)
     }
 
     pub fn blockstore_event(&mut self, e: BlockstoreEvent) {
+        let _ = verif_take_armed_windows(); // per-thread: leftovers of a call that panicked in another world
         poll_once(self.votor.verif_handle_blockstore_event(e));
         self.collect_armed();
     }
@@ -108,6 +110,7 @@ impl Core {
         }
         let (slot, crashed) = if stage == 0 { (w, true) } else { (w + stage as u64 - 1, false) };
         self.timers.insert(w, stage + 1);
+        let _ = verif_take_armed_windows(); // per-thread: leftovers of a call that panicked in another world
         poll_once(self.votor.verif_handle_timeout(Slot::new(slot), crashed));
         self.collect_armed();
         Some((slot, crashed))
